@@ -49,6 +49,12 @@ Proof.
   - destruct v; try discriminate. case_if; [discriminate|exact IH].
 Qed.
 
+Lemma range_check_all_fuel groups cn l : range_check_all groups cn l <> OutOfFuel.
+Proof.
+  induction l as [|v r IH]; cbn [range_check_all]; [discriminate|].
+  apply bind_fuel; [apply range_check_fuel|]. intros _ _. exact IH.
+Qed.
+
 Lemma setattr_fuel T pt st name a : setattr T pt st name a <> OutOfFuel.
 Proof.
   unfold setattr. cbv zeta.
@@ -58,7 +64,7 @@ Proof.
   destruct (negb (memz pt pts)).
   - destruct ((- t_npackets T <=? pt) && (pt <? t_npackets T)); discriminate.
   - apply bind_fuel.
-    + destruct a; [apply range_check_fuel|discriminate].
+    + apply range_check_all_fuel.
     + intros _ _. destruct (allows_multiple T (compress name)); [|discriminate].
       destruct (assoc _ st) as [[u|old]|]; discriminate.
 Qed.
